@@ -44,6 +44,22 @@ pub fn find(id: &str) -> Option<Box<dyn Check>> {
 
 pub fn debug(args: &[String]) {
     match args.first().map(|s| s.as_str()) {
+        Some("shapes") => {
+            // fixpoint probe over hostile shapes: prints the shapes whose second formatting pass differs
+            let n: u64 = args.get(1).and_then(|s| s.parse().ok()).unwrap_or(2000);
+            let mut bad = std::collections::BTreeMap::new();
+            for i in 0..n {
+                let mut rng = crate::rng::Rng::for_case(1, "shapes", i);
+                let t = crash03::shapes(&mut rng, 2);
+                let mut m = std::collections::BTreeMap::new();
+                m.insert("n1".to_string(), t.clone());
+                m.insert("n2".to_string(), "# Two\n".to_string());
+                let r = crate::mon::catch(|| { let a = norm::export_lib(&m, ""); let b = norm::export_lib(&a, ""); (a["n1"].clone(), b["n1"].clone()) });
+                if let Ok((a, b)) = r { if a != b { bad.entry(t.clone()).or_insert((a, b)); } }
+            }
+            for (t, (a, b)) in bad.iter().take(40) { println!("SHAPE {:?}\n  ONE {:?}\n  TWO {:?}", t, a, b); }
+            println!("{} of {} differ", bad.len(), n);
+        }
         Some("gen") => norm::debug_gen(args),
         Some("fmt") => norm::debug_fmt(args),
         Some("lspfix") => {
